@@ -34,6 +34,11 @@ finally:
     subprocess.run(["git", "-C", "/repo", "checkout", "HEAD", "--", "."])
     left = subprocess.run(["git", "-C", "/repo", "status", "--porcelain", "--untracked-files=no"], capture_output=True, text=True).stdout.strip()
     assert not left, "repo not restored: " + left
+# the replay files written while the mutant was applied describe the mutated tree: drop them
+import glob
+for c in checks:
+    for f in glob.glob(os.path.join(V, "evidence", "replay", c + "_*.json")):
+        os.remove(f)
 ev = {}
 ep = os.path.join(d, "eval.json")
 if os.path.exists(ep):
